@@ -350,5 +350,18 @@ pub mod verif_hooks {
         }
     }
 
+    /// The config a backend would see: attribute pass over the top-level items, then
+    /// `get_overridden(target)` — exactly the statements at the top of [`gen`].
+    pub fn effective_config(module: &syn::File, target_language: &str, mut config: Config) -> Config {
+        let target_language = target_language.strip_suffix('2').unwrap_or(target_language);
+        let cfg = find_top_level_attr(module.items.clone());
+        for attr in cfg {
+            for kvp in attr.key_value_pairs {
+                config.set(&kvp.key, toml_value_from_str(&kvp.value));
+            }
+        }
+        config.get_overridden(target_language)
+    }
+
     pub use crate::js::verif_hooks::{js_struct_layouts, JsLayout};
 }
